@@ -179,6 +179,7 @@ class EngineBase:
 
     def fork(self, st, cond):
         """Split a state on a z3 Bool / Python bool; returns [(st_true), (st_false)] with None if infeasible."""
+        self.flush_axioms(st)
         if isinstance(cond, bool):
             return (st, None) if cond else (None, st)
         cond = z3.simplify(cond)
@@ -322,7 +323,9 @@ class EngineBase:
                     self.write_field(st, ref.z, kind.cls, k, item)
                 return ref
             if isinstance(kind, KDict) and not v.d:
-                return ops.empty_of(kind)
+                e = ops.empty_of(kind)
+                self.fold_empty(st, e)
+                return e
             raise CheckerError('cannot coerce dict literal to %r' % kind)
         if isinstance(v, TupleVal):
             if isinstance(kind, KList):
@@ -341,6 +344,11 @@ class EngineBase:
                 out = ops.empty_of(kind)
                 for it in v.items:
                     out = ops.set_add(out, it)
+                return out
+            if isinstance(kind, KCounter):
+                out = ops.empty_of(kind)      # Counter(iterable): one per occurrence
+                for it in v.items:
+                    out = ops.counter_add(out, it, 1)
                 return out
         if isinstance(kind, KOpt) and isinstance(v, (TupleVal, LocalDict)):
             inner = self.coerce_to(st, v, kind.inner)
